@@ -30,6 +30,11 @@ Theorem C07_two_schedules_agree : forall (X Y : Type) (f : X -> Y) (pi1 pi2 : li
   run_par pi1 f xs = run_par pi2 f xs.
 Proof. exact @run_par_two_schedules. Qed.
 
+(* in particular every fork-join plan rayon can follow (recursive splitting, either half first) *)
+Theorem C07_plan_independent : forall (X Y : Type) (f : X -> Y) (p : plan) (xs : list X),
+  run_par (plan_order p 0 (length xs)) f xs = Ok (map f xs).
+Proof. exact @run_par_plan_independent. Qed.
+
 (* all_pairs / multi_source (and get_all_shortest_paths_involving through all_pairs):
    parallel gather + sequential post-processing = serial gather + the same post-processing *)
 Theorem C07_gather_then_post : forall (X Y : Type) (f : X -> Y) (R : Type) (post : list Y -> R)
